@@ -8,3 +8,9 @@ from sa.canon import make_table, TABLE
 t = make_table(Path(sys.argv[1] if len(sys.argv) > 1 else "/repo/src"))
 TABLE.write_text(json.dumps(t, indent=0, sort_keys=True))
 print(len(t), "functions,", sum(len(v) for v in t.values()), "bindings ->", TABLE)
+
+# the inventory of indirection constructs confirmed on this tree (sa/inventory.py)
+from sa.model import Repo
+from sa import inventory
+n = inventory.write_reference(Repo(Path(sys.argv[1]).parent if len(sys.argv) > 1 else None))
+print(n, "inventory entries ->", inventory.REF)
